@@ -123,7 +123,7 @@ Qed.
 (* the names a __post_init__ attribute can assign *)
 Fixpoint pi_sets (f : pifun) : list name :=
   match f with
-  | PFUser _ b _ sup => body_names b ++ pi_sets sup
+  | PFUser _ b _ sup => flat_map (fun s => match s with PSet n _ => [n] | PSuper => pi_sets sup end) (pb_body b)
   | PFNew old => pi_sets old
   | _ => []
   end.
@@ -145,16 +145,25 @@ Section Generic.
     destruct (nearest_deco C); [apply hc_check_loop|apply hc_raise].
   Qed.
 
+  Lemma flat_map_names_incl : forall (A : list name) (B : list (name * value)) body, incl A (map fst B) ->
+    incl (flat_map (fun s => match s with PSet n _ => [n] | PSuper => A end) body)
+         (map fst (flat_map (fun s => match s with PSet n v => [(n, v)] | PSuper => B end) body)).
+  Proof.
+    intros A B body Hi. induction body as [|[n v|] body IH]; simpl; [intros x []| |].
+    - intros x [<-|Hx]; [now left|right; now apply IH].
+    - rewrite map_app. apply incl_app; [apply incl_appl, Hi|apply incl_appr, IH].
+  Qed.
   Lemma pi_sets_resolve : forall C, incl (pi_sets (resolve_pi P C)) (hook_set_names C).
   Proof.
-    induction C as [|L C IH]; [intros x []|]. cbn [resolve_pi hook_set_names flat_map].
+    unfold hook_set_names. induction C as [|L C IH]; [intros x []|]. cbn [resolve_pi spec_hook_sets].
     assert (H : incl (pi_sets (match l_pi L with
                                | Some b => PFUser (l_id L) b (decorated L && eff_slots P L) (resolve_pi P C)
                                | None => resolve_pi P C end))
-                     ((match l_pi L with Some b => body_names b | None => [] end) ++ hook_set_names C)).
-    { destruct (l_pi L) as [b|]; cbn [pi_sets app].
-      - apply incl_app; [apply incl_appl, incl_refl|apply incl_appr, IH].
-      - exact IH. }
+                     (map fst (match l_pi L with
+                               | None => spec_hook_sets C
+                               | Some b => flat_map (fun s => match s with PSet n v => [(n, v)] | PSuper => spec_hook_sets C end) (pb_body b)
+                               end))).
+    { destruct (l_pi L) as [b|]; cbn [pi_sets]; [now apply flat_map_names_incl|exact IH]. }
     destruct (ts_installed P L); [|exact H]. cbn [pi_sets].
     destruct (l_pi L) as [b|]; [exact H|]. destruct (resolve_pi P C); exact H.
   Qed.
@@ -164,17 +173,17 @@ Section Generic.
     intros C r n v N Hn. unfold obj_setattr. destruct (has_dict P C || mem n (field_names C)); [|apply touches_raise].
     eapply touches_mono; [|apply touches_set_attr_raw]. intros x [<-|[]]. assumption.
   Qed.
-  Lemma touches_run_body : forall C r N (sup : M unit) slots, touches r N sup ->
-    forall body, incl (body_names (mkPib body None)) N ->
+  Lemma touches_run_body : forall C r N (sup : M unit) slots body,
+    (In PSuper body -> touches r N sup) -> (forall n v, In (PSet n v) body -> In n N) ->
     touches r N (run_body (obj_setattr P C r) sup slots body).
   Proof.
-    intros C r N sup slots Hs. induction body as [|s body IH]; intro Hi; [apply touches_ret|].
+    intros C r N sup slots. induction body as [|s body IH]; intros Hs Hn; [apply touches_ret|].
     destruct s as [n v|]; cbn [run_body].
     - apply touches_bind.
-      + apply touches_obj_setattr. apply Hi. unfold body_names. simpl. now left.
-      + intros _. apply IH. intros x Hx. apply Hi. unfold body_names in *. simpl. now right.
-    - apply touches_bind; [destruct slots; [apply touches_raise|exact Hs]|].
-      intros _. apply IH. intros x Hx. apply Hi. unfold body_names in *. simpl. exact Hx.
+      + apply touches_obj_setattr. apply (Hn n v). now left.
+      + intros _. apply IH; [intro X; apply Hs; now right|intros m w X; apply (Hn m w); now right].
+    - apply touches_bind; [destruct slots; [apply touches_raise|apply Hs; now left]|].
+      intros _. apply IH; [intro X; apply Hs; now right|intros m w X; apply (Hn m w); now right].
   Qed.
   Lemma touches_run_steps : forall r N old (val : bool -> M unit) vis, touches r N old -> (forall b, heap_const (val b)) ->
     forall steps ctxv, touches r N (run_steps old val vis ctxv steps).
@@ -194,8 +203,8 @@ Section Generic.
     - apply touches_bind; [apply touches_heap_const, hc_emit|intros _].
       apply touches_bind.
       + apply touches_run_body.
-        * eapply touches_mono; [|apply IH]. apply incl_appr, incl_refl.
-        * unfold body_names. simpl. apply incl_appl, incl_refl.
+        * intro Hin. eapply touches_mono; [|apply IH]. intros x Hx. apply in_flat_map. exists PSuper. now split.
+        * intros n w Hin. apply in_flat_map. exists (PSet n w). split; [assumption|now left].
       + intros _. unfold end_of. destruct (pb_raise b); [apply touches_raise|apply touches_ret].
     - destruct (p_ts P); [|apply touches_ret]. apply touches_run_steps; [apply IH|assumption].
   Qed.
@@ -723,6 +732,38 @@ Section Cmp.
     assert (E : match op with OpEq => nearest_deco (L :: rest) | _ => order_layer P (L :: rest) end = Some (L :: rest)).
     { destruct op; try congruence; simpl; now rewrite HL, Ho. }
     rewrite E, Hc, Nat.eqb_refl, !getattrs_fields_tuple, H1, H2. reflexivity.
+  Qed.
+
+  Lemma nearest_deco_head : forall C D, nearest_deco C = Some D -> exists L rest, D = L :: rest /\ decorated L = true.
+  Proof.
+    induction C as [|L C IH]; intros D H; simpl in H; [discriminate|]. destruct (decorated L) eqn:E.
+    - inversion H. now exists L, C.
+    - now apply IH.
+  Qed.
+  (* == for every class with a decorated class in its MRO (also undecorated subclasses) *)
+  Lemma dc_cmp_eq_gen : forall C D h r1 r2 t1 t2, nearest_deco C = Some D ->
+    class_of h r2 = Some (class_id C) ->
+    fields_tuple h r1 (dc_fields C) = Some t1 -> fields_tuple h r2 (dc_fields C) = Some t2 ->
+    dc_cmp P R tuple_cmp OpEq C h r1 r2 = bind (tuple_cmp OpEq h t1 t2) (fun x => Ok (ViaTuple x)).
+  Proof.
+    intros C D h r1 r2 t1 t2 HD Hc H1 H2. unfold dc_cmp. rewrite HD, Hc, Nat.eqb_refl, (nearest_deco_fields _ _ HD).
+    rewrite !getattrs_fields_tuple, H1, H2. reflexivity.
+  Qed.
+  (* ordering: through the class that defines the order methods, when it has the fields of the instance's class *)
+  Lemma dc_cmp_order_gen : forall op C D' h r1 r2 t1 t2, order_layer P C = Some D' -> dc_fields D' = dc_fields C -> op <> OpEq ->
+    class_of h r2 = Some (class_id C) ->
+    fields_tuple h r1 (dc_fields C) = Some t1 -> fields_tuple h r2 (dc_fields C) = Some t2 ->
+    dc_cmp P R tuple_cmp op C h r1 r2 = bind (tuple_cmp op h t1 t2) (fun x => Ok (ViaTuple x)).
+  Proof.
+    intros op C D' h r1 r2 t1 t2 Ho Hf Hop Hc H1 H2. unfold dc_cmp.
+    assert (E : match op with OpEq => nearest_deco C | _ => order_layer P C end = Some D') by (destruct op; congruence).
+    rewrite E, Hc, Nat.eqb_refl, Hf, !getattrs_fields_tuple, H1, H2. reflexivity.
+  Qed.
+  Lemma dc_hash_gen : forall C D h r t, nearest_deco C = Some D ->
+    fields_tuple h r (dc_fields C) = Some t -> dc_hash P R tuple_hash C h r = tuple_hash h t.
+  Proof.
+    intros C D h r t HD H. unfold dc_hash. rewrite HD. destruct (nearest_deco_head _ _ HD) as [L [rest [-> HL]]].
+    change (eff_frozen P L) with true. cbv iota. rewrite (nearest_deco_fields _ _ HD), getattrs_fields_tuple, H. reflexivity.
   Qed.
 
   Lemma dc_cmp_other_class : forall op C h r1 r2 c2, class_of h r2 = Some c2 -> c2 <> class_id C ->
